@@ -44,6 +44,7 @@ def plan(tier, seed):
     specs += [{"kind": "mirror_exh", "i": i, "n": 8 if q else 16, "ncost": 2 if q else 6} for i in range(8 if q else 16)]
     # many small object trees on WIDE species trees (6-9 leaves), each against its mirrored presentations
     specs += [{"kind": "mirror_wide", "i": i, "count": 250 if q else 1500} for i in range(16)]
+    specs += [{"kind": "mirror_small", "i": i, "count": 120 if q else 900} for i in range(16)]
     # determinism batch: the same cases in fresh processes with different hash seeds
     for hs in ([0, 1, 2, 12345] if q else [0, 1, 2, 3, 77, 4242, 31337, 99991, 5, 6, 7, 8]):
         specs.append({"kind": "det", "batch": 24 if q else 200, "_hashseed": hs, "_canaries": False})
@@ -351,13 +352,19 @@ def mirror_exh(ctx, spec):
 def mirror_wide(ctx, spec):
     """Child-order relation on wide species trees: a transfer recipient several levels below the donor, in another
     branch, written to its left or to its right - placements that 3-5 species cannot express."""
-    rng = ctx.rng("mirror_wide")
+    small = spec["kind"] == "mirror_small"
+    rng = ctx.rng(spec["kind"])
     for k in range(spec["count"]):
-        algo = ("ext_spfs", "superdtl", "thl", "ext_spfs")[k % 4]
+        algo = ("superdtl", "base_uspfs", "ext_spfs", "superdtl", "base_spfs")[k % 5] if small else ("ext_spfs", "superdtl", "thl", "ext_spfs")[k % 4]
         kind = SC.kind_of(algo)
         if kind == "plain":
             Gn, Sn, lm = gen.random_input(rng, 5, 9, min_obj=3, min_sp=6)
             case = {"algo": algo, "G": Gn, "S": Sn, "leafmap": lm, "costs": gen.random_cost(rng, plain=False)}
+        elif small:
+            # few species, 4-6 objects, 3-4 families: which CHILD keeps the families inherited from above, which one is
+            # the partial copy - the two arms of every duplication/transfer rule, exchanged by the mirror
+            case = suite.random_super_case(rng, algo, 6 if kind == "unordered" else 5, 3, 4 if kind == "unordered" else 3, consistent_p=1.0, min_obj=4)
+            case["algo"] = algo
         else:
             case = suite.random_super_case(rng, algo, 4, 9, 2, consistent_p=1.0, min_obj=3, min_sp=6)
             case["algo"] = algo
@@ -374,12 +381,14 @@ def mirror_wide(ctx, spec):
             if base["n"] > MAX_SET:
                 continue
             norm = canon_sorted_syn(base["set"]) if kind == "unordered" else base["set"]
-            for name, g2, s2 in (("species", case["G"], mirror_all(case["S"])), ("both", mirror_all(case["G"]), mirror_all(case["S"]))):
+            variants = (("object", mirror_all(case["G"]), case["S"]), ("object (some nodes)", reorder(rng, case["G"]), case["S"])) if small else \
+                (("species", case["G"], mirror_all(case["S"])), ("both", mirror_all(case["G"]), mirror_all(case["S"])))
+            for name, g2, s2 in variants:
                 c2 = dict(case, G=g2, S=s2)
                 r = solve(c2)
                 ctx.count("evaluations")
                 ctx.count("mon.reorder")
-                ctx.count("mon.mirror_wide")
+                ctx.count("mon." + spec["kind"])
                 got = None if r["exc"] else (canon_sorted_syn(r["set"]) if kind == "unordered" else r["set"])
                 if r["exc"]:
                     ctx.viol("C09.reorder", dict(case, relation="reorder", transformed=c2), f"{algo} raised after mirroring: {r['exc']}")
@@ -389,13 +398,13 @@ def mirror_wide(ctx, spec):
         except SkipCase:
             ctx.count("skipped_budget")
             continue
-        ctx.sig(("mirror_wide", algo, len(case["leafmap"]), base["min"] if base["min"] < 12 else 12, min(base["n"], 9)), base["n"] >= 2)
+        ctx.sig((spec["kind"], algo, len(case["leafmap"]), base["min"] if base["min"] < 12 else 12, min(base["n"], 9)), base["n"] >= 2)
         if ctx.too_many():
             return
 
 
 def run(ctx, spec):
-    if spec["kind"] == "mirror_wide":
+    if spec["kind"] in ("mirror_wide", "mirror_small"):
         return mirror_wide(ctx, spec)
     if spec["kind"] == "mirror_exh":
         return mirror_exh(ctx, spec)
